@@ -2,7 +2,10 @@
 // that *currently* exist (name, discriminant), so C13 enumerates the live enum.
 use std::io::Write;
 fn main() {
-    let src_path = "/repo/src/errorcodes.rs";
+    println!("cargo:rerun-if-env-changed=VERIF_REPO");
+    let repo = std::env::var("VERIF_REPO").unwrap_or_else(|_| "/repo".to_string());
+    let src_path = format!("{}/src/errorcodes.rs", repo);
+    let src_path = src_path.as_str();
     println!("cargo:rerun-if-changed={}", src_path);
     let src = std::fs::read_to_string(src_path).expect("read errorcodes.rs");
     let start = src.find("\npub enum ErrorKind {").expect("enum ErrorKind");
